@@ -283,6 +283,15 @@ impl serde::Serialize for Address {
     {
         let bech32 = self
             .to_bech32(None)
+            .or_else(|_| {
+                // the network cannot be named (a Byron address whose protocol magic belongs to no known
+                // network): it is not main net, and the reader accepts any prefix
+                let prefix = match &self.0 {
+                    AddrType::Reward(_) => "stake_test",
+                    _ => "addr_test",
+                };
+                self.to_bech32(Some(prefix.to_string()))
+            })
             .map_err(|e| serde::ser::Error::custom(format!("to_bech32: {:?}", e)))?;
         serializer.serialize_str(&bech32)
     }
